@@ -43,12 +43,17 @@ def run(ctx):
     # R1 (shared with C03/R2)
     c03.r2_eval(_Rename(chk, "C03/R2", "C15/R1"), fx)
     t = fx.thir_body(c03.EVAL_POL)
-    early = [x for x in T.walk(T.user_body(t)) if x.get("k") in ("Try", "Return", "Break")]
-    cl = [tt for n2, tt in fx.thir.items() if n2.startswith(c03.EVAL_POL + "::{closure") and (tt.get("sp") or {}).get("m") is None]
-    for c in cl:
-        early += [x for x in T.walk(T.user_body(c)) if x.get("k") in ("Try", "Return", "Break")]
-    chk.instance("C15/R1", "no early exit (`?`, return, break) while iterating over the candidates", t["def"], loc_of(t.get("sp")),
-                 holds=not early, key="C15/R1 Policies::evaluate early-exit")
+    from vlib import absint as A
+
+    def hook(fn, args, node, interp):
+        if fn.endswith("Evaluate::evaluate") or fn == c03.EVAL_CAND:
+            return ("term", "EVAL", (args[0],))
+        return None
+    paths = A.Interp(fx, hook=hook, crates=(AGENT,)).explore(c03.EVAL_POL)
+    early = [p for p in paths if p.early_loop_exit() or p.end == "abort" or (A.is_res(p.ret) if p.ret is not None else False)]
+    # iterator-chain form: the per-candidate closure must not be able to stop the iteration (no try_* / map_while / take_while adaptor: C03/R2's DROPPING list)
+    chk.instance("C15/R1", "no early exit (`?`, return, break) while iterating over the candidates (%d paths explored)" % len(paths), t["def"], loc_of(t.get("sp")),
+                 holds=bool(paths) and not early, key="C15/R1 Policies::evaluate early-exit")
     r2_workspace(chk, fx)
     r2_dependency(ctx, chk, fx)
     r3_evaluator_survives(ctx, chk, fx)
